@@ -207,9 +207,7 @@ Builtin(mm, name, args) ==
                 [] v.k \in {"string", "bytes"} -> Ok(h, VInt(Len(v.b)))
                 [] v.k = "map" -> Ok(h, VInt(Len(TableOf(h, v))))
                 [] OTHER -> BadArg)
-    [] name = "copy" -> IF n # 1 THEN WrongArgs
-                        ELSE IF args[1].k = "builtin" THEN Excluded("copy-of-builtin")   \* not documented
-                        ELSE CopyDeep(h, args[1], 0)
+    [] name = "copy" -> IF n # 1 THEN WrongArgs ELSE CopyDeep(h, args[1], 0)
     [] name = "append" ->
          IF n < 2 THEN WrongArgs
          ELSE IF args[1].k # "array" THEN BadArg
